@@ -9,6 +9,21 @@ HAS this shape is read off the sources on every run: the obligations below are a
 `tools/gofacts` regenerates from /repo.  Release-exactly-once by the framework is `C10_balanced`
 (every acquired compressor is released once on every path) plus the facts about `Close` and
 `ReadEntity` below.
+
+The remaining clauses of the statement.  "never uses it afterwards" and "closing a response writer
+twice is an error, not a second release" are theorems about the serve model, for every
+configuration, entry point and request: `C13_no_use_after_release`, `C13_second_close_is_error`
+(`C13_second_close_serveHTTP`: the one path on which a writer IS closed twice; `C13_close_twice`:
+the operation).  What of this the harness observes: the ledger provider counts every release and
+flags the release of an object that is not outstanding (`Obs.rel`, `Obs.dbl`), so a second release
+falsifies `Spec.c13Holds` as it stands (`acq == rel && dbl == 0`); it also points every released
+object at a throw-away sink, so bytes written through a compressor after its release are lost and
+the decoded body is short (`Obs.complete`/`Obs.body`, judged by C07/C10).  The two counters
+themselves are not observable through the public API — `Close`'s error is dropped by the deferred
+closures of container.go, a `Write` after `Close` is refused inside `CompressingResponseWriter`
+before it touches anything — so `Spec.c13Holds` is left as it is.
+"Concurrent encoded responses each decode to their own payload" is `Pool.C13_own_payload` on the
+protocol model with objects as buffers (Lemmas/Pool.lean), a consequence of `C13_exclusive`.
 -/
 import Restful.Model.Conc
 import Restful.Gen.Facts
@@ -27,6 +42,56 @@ theorem C13_served_released_once (E : ReEnv) (cfg : Serve.Cfg) (e : Serve.Entry)
     Spec.c13Holds (Spec.obsOf (Serve.serve E cfg e {} sr)) = true := by
   have h := Serve.Panic.serve_balanced E cfg e {} sr rfl
   simp [Spec.c13Holds, Spec.obsOf, h]
+
+/-- **never used after release.**  For every configuration, entry point and request — codings
+    enabled anywhere, filters that stop, replace or wrap the response, panics at any position,
+    recovery on or off, custom recover handler —: no `Write` of the request reaches the compressing
+    writer after the `Close` that released its compressor (compress.go:41 is never taken: the
+    counter `Rec.writeAfterClose` of the model is 0 when the entry point is left).  In the model the
+    compressor is used by `Write` and `Close` only; the second `Close` is the next theorem. -/
+theorem C13_no_use_after_release (E : ReEnv) (cfg : Serve.Cfg) (e : Serve.Entry) (sr : Serve.SReq) :
+    (Serve.serve E cfg e {} sr).rc.writeAfterClose = 0 :=
+  (Serve.Panic.serve_after E cfg e {} sr).2.1
+
+/-- **closing twice is an error, not a second release.**  For every configuration, entry point and
+    request: a `Close` found the writer already closed (`Rec.closeErrors`, compress.go:64) exactly
+    when `ServeHTTP` installed the compressing writer and the mux handed the request to `dispatch`
+    (`secondClose`: `dispatch`'s deferred `Close`, container.go:215, runs before `ServeHTTP`'s,
+    container.go:336) — once, and never otherwise; and in every case the ledger counts one
+    acquisition and ONE release per compressing writer. -/
+theorem C13_second_close_is_error (E : ReEnv) (cfg : Serve.Cfg) (e : Serve.Entry) (sr : Serve.SReq) :
+    (Serve.serve E cfg e {} sr).rc.closeErrors = (if Serve.Panic.secondClose cfg e sr then 1 else 0) ∧
+    (Serve.serve E cfg e {} sr).world.acquired = (if (Serve.serve E cfg e {} sr).rc.comp.isSome then 1 else 0) ∧
+    (Serve.serve E cfg e {} sr).world.released = (if (Serve.serve E cfg e {} sr).rc.comp.isSome then 1 else 0) := by
+  have ha := Serve.Panic.serve_after E cfg e {} sr
+  have hl := Serve.Panic.ledger_closed {} _ ha.1
+  rw [Serve.Panic.serve_world]
+  exact ⟨ha.2.2, by simpa using hl.2.1, by simpa using hl.2.2⟩
+
+/-- the case the clause is about, spelled out: container encoding on, the request asks for a coding,
+    `ServeHTTP` → `dispatch`: two `Close` calls on the same writer, the second is refused (one
+    error), one compressor acquired, one released -/
+theorem C13_second_close_serveHTTP (E : ReEnv) (cfg : Serve.Cfg) (sr : Serve.SReq) (c : Serve.Coding)
+    (henc : cfg.encoding = true) (hw : Serve.wants (Serve.initial sr).rc sr.acceptEncoding = some c) :
+    (Serve.serve E cfg .serveDispatch {} sr).rc.closeErrors = 1 ∧
+    (Serve.serve E cfg .serveDispatch {} sr).world.acquired = 1 ∧
+    (Serve.serve E cfg .serveDispatch {} sr).world.released = 1 := by
+  have hs : Serve.Panic.secondClose cfg .serveDispatch sr = true := by simp [Serve.Panic.secondClose, henc, hw]
+  have h := C13_second_close_is_error E cfg .serveDispatch sr
+  have hc := Serve.Panic.secondClose_coded E cfg .serveDispatch {} sr hs
+  simpa [hs, hc] using h
+
+/-- the operation itself (compress.go:63-78): a `Close` after a `Close` changes nothing but the error
+    count — same compressor record, same ledger, whatever the state -/
+theorem C13_close_twice (s : Serve.St) (w : Serve.World) (c : Serve.Comp) (h : s.rc.comp = some c) :
+    Serve.closeComp (Serve.closeComp s) =
+      { Serve.closeComp s with rc := { (Serve.closeComp s).rc with closeErrors := (Serve.closeComp s).rc.closeErrors + 1 } } ∧
+    Serve.ledger w (Serve.closeComp (Serve.closeComp s)).rc = Serve.ledger w (Serve.closeComp s).rc := by
+  have hs : (Serve.closeComp s).rc.comp.isSome = true := by rw [Serve.Panic.closeComp_isSome, h]; rfl
+  obtain ⟨c1, hc1⟩ := Option.isSome_iff_exists.mp hs
+  have := Serve.Panic.closeComp_again hc1 (Serve.Panic.closeComp_closed s c1 hc1)
+  rw [this]
+  exact ⟨rfl, rfl⟩
 
 /-- the three acquire methods of the bounded cache are one non-blocking receive each, the three
     release methods one non-blocking send each: no plain send, receive or `len` check anywhere -/
@@ -65,6 +130,9 @@ theorem C13_release_sites :
 -- also: Restful.Pool.C13_acquire_fresh_or_cached
 -- also: Restful.Pool.sync_pool_contract
 -- also: Restful.Pool.F13_witness
+-- also: Restful.Pool.C13_own_payload
+-- also: Restful.Pool.C13_own_payload_run
+-- also: Restful.Pool.own_payload_needs_exclusive
 
 /-! ### non-vacuity (audit)
 
@@ -97,6 +165,33 @@ example :
     ¬ Pool.Inv { cap := 1, chan := [], held := [(0, 0)], next := 0 } := by
   unfold Pool.Inv
   decide
+
+/-! `C13_own_payload`: two requests, capacity 1.  Request 0 takes the cached object 0, request 1
+    gets the fresh object 1; they write their payloads `[1,2,3]` and `[7,8]` byte by byte in turns;
+    0 closes (object 0 cached again), 1 closes (no room: dropped); request 1 comes back, is handed
+    object 0 — which still holds request 0's bytes until the `Reset` — and writes one byte. -/
+def pay : Tid → List Byte := fun t => if t = 0 then [1, 2, 3] else [7, 8]
+
+def bsched : List BStep :=
+  [.acquire 0, .acquire 1, .write 0 0, .write 1 1, .write 0 0, .write 1 1, .write 0 0,
+   .release 0 0, .release 1 1, .acquire 1, .write 1 0]
+
+example :
+    let mid := brun pay (binit 1) (bsched.take 6)
+    let σ := brun pay (binit 1) bsched
+    mid.core.held = [(1, 1), (0, 0)] ∧ mid.buf 0 = [1, 2] ∧ mid.buf 1 = [7, 8] ∧ mid.sent 0 0 = [1, 2] ∧
+    (brun pay (binit 1) (bsched.take 9)).buf 0 = [1, 2, 3] ∧
+    σ.core = { cap := 1, chan := [], held := [(1, 0)], next := 2 } ∧ σ.buf 0 = [7] ∧ σ.sent 1 0 = [7] ∧
+    σ.out = [(1, [7, 8]), (0, [1, 2, 3])] := by
+  decide
+
+/-- the theorem on that schedule, in both forms; its conclusion is what the evaluation above shows,
+    and `own_payload_needs_exclusive` is the same run from a state in which object 0 is held twice:
+    request 1 receives `[10, 20]`, the first byte being request 0's -/
+example := C13_own_payload_run pay 1 bsched
+example := C13_own_payload pay 1 _ (breachable_brun pay 1 bsched)
+example : ((1 : Tid), ([7, 8] : List Byte)) ∈ (brun pay (binit 1) bsched).out ∧ ([7, 8] : List Byte) = pay 1 := by decide
+example := own_payload_needs_exclusive
 
 /-- the state after the first acquisition (channel empty), and a proof that it is reachable -/
 def σ1 : St := run (init 1) [.acquire 0]
@@ -142,6 +237,29 @@ example : Spec.c13Holds o = true := C13_served_released_once _ cfg .dispatch sr
 example : o.acq = 1 ∧ o.rel = 1 ∧ o.coded = true ∧
     Spec.c13Holds { o with rel := 0 } = false ∧ Spec.c13Holds { o with rel := 2 } = false ∧
     Spec.c13Holds { o with dbl := 1 } = false := by
+  decide
+
+/-- `C13_no_use_after_release` and `C13_second_close_is_error` on requests whose response IS encoded:
+    through `ServeHTTP` (`secondClose`: the second `Close` is refused once, one release) and through
+    `Dispatch` (one `Close`, no error) -/
+example : Serve.Panic.secondClose cfg .serveDispatch sr = true ∧ Serve.Panic.secondClose cfg .dispatch sr = false := by decide
+example := C13_no_use_after_release ⟨fun _ _ => true, fun _ _ => true⟩ cfg .serveDispatch sr
+example := C13_second_close_serveHTTP ⟨fun _ _ => true, fun _ _ => true⟩ cfg sr .gzip rfl (by decide)
+example :
+    let r := Serve.serve ⟨fun _ _ => true, fun _ _ => true⟩ cfg .serveDispatch {} sr
+    let r' := Serve.serve ⟨fun _ _ => true, fun _ _ => true⟩ cfg .dispatch {} sr
+    r.rc.closeErrors = 1 ∧ r.rc.writeAfterClose = 0 ∧ r.world = { acquired := 1, released := 1 } ∧
+    r.rc.comp = some { coding := .gzip, payload := "x<stack>".toList, closed := true } ∧
+    r'.rc.closeErrors = 0 ∧ r'.rc.writeAfterClose = 0 ∧ r'.world = { acquired := 1, released := 1 } := by
+  decide
+
+/-- the two counters are not constants of the model: a `Write` that does reach a closed compressing
+    writer is counted (and its bytes are lost), a `Close` on a closed one is counted -/
+example :
+    let s : Serve.St := { rc := { comp := some { coding := .gzip, payload := "x".toList, closed := true } } }
+    (Serve.baseWrite s.rc "late".toList).writeAfterClose = 1 ∧
+    (Serve.baseWrite s.rc "late".toList).comp = s.rc.comp ∧
+    (Serve.closeComp s).rc.closeErrors = 1 ∧ Serve.ledger {} (Serve.closeComp s).rc = { acquired := 1, released := 1 } := by
   decide
 
 end C13Example
